@@ -308,6 +308,14 @@ def run_dres(ctx, cid, P):
     resumed_agreement(ctx, p, fl, fkey, desc, want=first, cauth=cauth)
 
 
+# host names of every valid shape (tlslite.utils.dns_utils): trailing dot,
+# single label, digits first, hyphens, 63-byte labels, 253 bytes in all
+SNI_SHAPES = ["server.example.", "localhost", "1host.example",
+              "a-b.c--d.example", "x" * 63 + ".example",
+              ".".join(["a" * 49] * 5) + ".abc", "xn--nxasmq6b.example",
+              "0.0.0.a"]
+
+
 def draw(rng):
     """random pair of settings and flavour"""
     p_keep = rng.choice([0.3, 0.5, 0.7, 0.85])
@@ -340,7 +348,7 @@ def draw(rng):
         npn_c = []
         npn_s = rng.sample(PROTOS, rng.randint(1, 3))
     sni = rng.choice([None, None, "example.com", "host.test",
-                      "WWW.Example.COM"])
+                      "WWW.Example.COM"] + SNI_SHAPES)
     if kind == "psk":
         psk = (creds.PSK_ID, creds.PSK_SECRET, rng.choice(["sha256",
                                                            "sha384"]))
